@@ -348,7 +348,7 @@ func (x *Exec) zero(t types.Type) AV {
 		}
 		return AV{k: 'G', agg: g, what: types.TypeString(t, nil)}
 	case *types.Signature:
-		return AV{k: 'U'}
+		return AV{k: 'U', tri: 1} // the nil function
 	}
 	return AV{k: 'O', what: "zero " + t.String()}
 }
@@ -448,7 +448,8 @@ func (x *Exec) fromAtoms(T types.Type, a Atoms, from AV) AV {
 			}
 			return AV{k: 'B', tri: t}
 		}
-		return AV{k: 'N'}
+		// a boxed enumeration constant (a token, a node type) keeps its value
+		return AV{k: 'N', n: from.n, nk: from.nk, pos: from.nk && from.n >= 1, nn: from.nk && from.n >= 0}
 	case *types.Slice:
 		v := AV{k: 'L', atoms: a, elemK: x.elemKind(u.Elem()), prov: from.prov, obj: from.obj, bad: from.bad}
 		if a&ANilSlice != 0 {
